@@ -22,7 +22,7 @@ RULE = (
     "Non-trivial = a case whose outcome was decided on >= 3 components (returned and re-swept, or raised); "
     "distinct = canonical spec hash + settings"
 )
-REQUIRED = ["finite", "converged.resweep", "sweeps.bound", "exception.type", "phys.polarity", "phys.no_gain",
+REQUIRED = ["finite", "converged.resweep", "sweeps.bound", "sweeps.announced", "exception.type", "phys.polarity", "phys.no_gain",
             "law.vout", "law.iin", "benign.solved", "benign.matches_reference", "benign.tighter_is_closer", "overload.decided"]
 SIZES = {"quick": 260, "thorough": 1600}
 ASSUMPTIONS = [
@@ -74,6 +74,7 @@ def gen(rng, i, tier):
         case["vtol"] = rng.choice([1e-3, 1e-9, 1e-11])
     if rng.random() < 0.3:
         case["gaps"] = rng.choice([1, 2, 3, 5])
+    case["verbose"] = rng.random() < 0.25
     return case
 
 
@@ -196,8 +197,17 @@ def run(ctx, case):
     if st != "ok":
         raise RuntimeError("generator produced a spec the public API rejects: %s" % H.exc_sig(sysobj))
     _probe["solves"] = []
-    st, df = H.solve(sysobj, vtol=vtol, itol=itol, maxiter=case["maxiter"], ta=case["ta"])
+    verbose = case.get("verbose", False)
+    with H.quiet() as out:
+        st, df = H.solve(sysobj, vtol=vtol, itol=itol, maxiter=case["maxiter"], ta=case["ta"], quiet=not verbose)
     solves = list(_probe["solves"])
+    if verbose and st == "ok":
+        # solve(quiet=False) announces, per phase, the number of sweeps it actually performed
+        import re
+
+        said = [int(x) for x in re.findall(r"Tolerances met after (\d+) iterations", out.getvalue())]
+        did = [rec["sweeps"] for rec in solves if rec["returned"]]
+        ctx.check("sweeps.announced", said == did, {"announced": said, "performed": did})
     outcome = "returned" if st == "ok" else type(df).__name__
     ctx.count("outcome/" + case["mode"], outcome)
     det = {"settings": {"vtol": vtol, "itol": itol, "maxiter": case["maxiter"]}, "mode": case["mode"]}
